@@ -672,6 +672,8 @@ example : ∃ x, fold 2 ex1 (Val.empty 2) = .ok x := ⟨_, rfl⟩
 example : (Tree.seq .sequence [.leaf (.set 0 [] (.const (.int 1))), .leaf .store, .leaf .data]).noConsumer = true := rfl
 example : run 2 ⟨0, 1, 0, 1⟩ [] (build 2 (.seq .sequence [.leaf (.set 1 [] (.const (.int 1))), .leaf .ucfs]))
     [(5, [none, none])] = some [(5, [none, some (.leaf (.int 1))])] := rfl
+-- hypothesis of `run_values_independent`: a state with a consumer and a run-time mutator is linear
+example : (build 2 (.seq .sequence [.leaf (.set 1 [] (.const (.int 1))), .leaf .ucfs, .leaf (.mut 0 [] (.int 5))])).linear = true := rfl
 -- hypotheses of `skip_sound`: `{} ⊑ {a: 1}`, and the Split that empties both
 example : leL (Val.empty 2) [some (.leaf (.int 1)), none] := by simp [leL, leO, Val.empty, List.replicate]
 -- hypothesis of `delivered_wf` / `exported_wf`
